@@ -8,6 +8,11 @@
 #include <algorithm>
 #include <iterator>
 
+#ifdef BLUETOE_VERIF
+// verification hook: the harness supplies the types of the members shared between contexts
+#include <bluetoe_verif_hooks.hpp>
+#endif
+
 namespace bluetoe {
 
     namespace details {
@@ -262,7 +267,11 @@ namespace bluetoe {
             };
 
             std::size_t     next_;
+#ifdef BLUETOE_VERIF
+            BLUETOE_VERIF_SHARED_BYTE queue_[ ( Size * bits_per_characteristc + 7 ) / 8 ];
+#else
             std::uint8_t    queue_[ ( Size * bits_per_characteristc + 7 ) / 8 ];
+#endif
         };
 
         /**
@@ -322,7 +331,11 @@ namespace bluetoe {
                 state_ = notification_queue_entry_type::empty;
             }
         private:
+#ifdef BLUETOE_VERIF
+            BLUETOE_VERIF_SHARED( notification_queue_entry_type ) state_;
+#else
             notification_queue_entry_type state_;
+#endif
         };
 
         template < int C >
